@@ -88,6 +88,8 @@ def make_copy(doc, acc_c, kind_c, max_ti, twin=False):
         with NoTracing():
             f = docenv.PARSER.parse(text, M.File, auto_claim_comments=acc)
             path, m = tree_models(f)[mi]
+            if ti % 2 and hasattr(type(m), 'indent_by'):
+                m.indent_by = '\t'            # the only non-token state of a tree model; half of the configurations copy a model with a non-default unit
             mtext = text_of(m)
             c = copy.deepcopy(m)
             what = '%s deepcopy of %s (%s)' % (doc, path, type(m).__name__)
@@ -117,6 +119,8 @@ def make_copy(doc, acc_c, kind_c, max_ti, twin=False):
                 check(type(a) is type(b) and p1 == p2, what, 'tree shape differs at', p1, p2)
                 if isinstance(a, M.BlockComment):
                     check(a.claimed == b.claimed, what, 'claimed flag differs at', p1)
+                if hasattr(type(a), 'indent_by'):
+                    check(a.indent_by == b.indent_by, what, 'indent_by differs at', p1, R(a.indent_by), R(b.indent_by))
             # independence: one edit on one side, the other side untouched
             target, other = (c, m) if on_copy else (m, c)
             other_root = m.token_store if on_copy else st
@@ -192,8 +196,16 @@ def make_equal(doc, acc_c, kind_c, max_ti, twin=False):
                 if not vts:
                     return
                 t = vts[ti % len(vts)]
+                hash(t)
                 t.raw_text = perturb_text(t)
                 edit = 'text of one token -> %r' % t.raw_text
+                try:
+                    o = type(t).from_raw_text(t.raw_text)
+                except Exception:
+                    o = None
+                if o is not None:     # an edited token and a fresh token with the same type and text: equal, so equal hashes
+                    check(t == o and o == t, what, 'a token edited to a text differs from a fresh token with that text', docenv.R_(t))
+                    check(hash(t) == hash(o), what, 'equal tokens with different hashes after an edit', docenv.R_(t))
             elif kind == 1:
                 eds = structural_edits(c)
                 if not eds:
@@ -215,6 +227,30 @@ def make_equal(doc, acc_c, kind_c, max_ti, twin=False):
                 check(text_of(c) == text_of(a) or o is c, what, 'unclaim changed the text')
                 if o is c:
                     return   # the comment left the span of the model itself: texts differ, nothing to say about ownership
+            elif kind == 5:
+                # same text, other ownership of an INTERLEAVING comment (entry of a repeated field with comments)
+                lists = []
+                for _, x in walk(c):
+                    for attr in ('raw_postings_with_comments', 'raw_meta_with_comments', 'raw_directives_with_comments'):
+                        if hasattr(type(x), attr):
+                            lists.append(getattr(x, attr))
+                if not lists:
+                    return
+                w = lists[ti % len(lists)]
+                before_text = text_of(c)
+                if any(isinstance(x, M.BlockComment) for x in w):
+                    w.unclaim_interleaving_comments()
+                    edit = 'unclaim of interleaving comments'
+                else:
+                    try:
+                        got = w.claim_interleaving_comments()
+                    except ValueError:
+                        return
+                    if not got:
+                        return
+                    edit = 'claim of interleaving comments'
+                if text_of(c) != before_text:
+                    return
             elif kind == 4:
                 # same structure, different text between tokens: spacing at a symbolic place (incl. the tail of the model)
                 subs = [x for _, x in walk(c) if hasattr(x, 'spacing_before') and x.token_store is c.token_store]
@@ -372,7 +408,7 @@ def _reg(name_fn, tiers, timeout, family, bounds, twin=False, cost=None):
 
 Q, T = ('quick', 'thorough'), ('thorough',)
 KINDS = ['one token text', 'one structural edit', 'one spacing edit', 'in-place arithmetic reading the other side']
-EKINDS = ['one token text', 'one child removed/added', 'comment ownership', 'other type with the same text (every token class)', 'spacing between tokens']
+EKINDS = ['one token text (also: hash of the edited token vs a fresh equal token)', 'one child removed/added', 'comment ownership', 'other type with the same text (every token class)', 'spacing between tokens', 'ownership of interleaving comments (claim / unclaim on a repeated field)']
 for _d in DOCS:
     for _acc in (1, 0):
         for _kind in range(4):
@@ -382,7 +418,7 @@ for _d in DOCS:
                  'document %r, auto_claim_comments=%d: every tree model at any depth x %s (12 places) on copy or original' % (_d, _acc, KINDS[_kind]), cost=100)
             _reg(make_copy(_d, _acc, _kind, 47), {'C11': T}, 1800, 'copy',
                  'document %r, auto_claim_comments=%d: every tree model at any depth x %s (48 places) on copy or original' % (_d, _acc, KINDS[_kind]))
-        for _kind in range(5):
+        for _kind in range(6):
             _reg(make_equal(_d, _acc, _kind, 11), {'C20': Q}, 900, 'equal',
                  'document %r, auto_claim_comments=%d: every tree model x perturbation: %s (12 places)' % (_d, _acc, EKINDS[_kind]), cost=100)
             _reg(make_equal(_d, _acc, _kind, 47), {'C20': T}, 1800, 'equal',
